@@ -100,7 +100,7 @@ def check(ctx):
     cov = dict(audit)
     cov.update({
         "trusted_base": TRUSTED, "evaluations": n, "distinct_nontrivial": ok_pkgs,
-        "rule": "specs = the fixture specs of /repo (own configuration + one drawn flag combination), random routing / security / parameter / JSON-component / response+client / map-fat specs, name-stress specs (two awkward names in one scope: query, header, path parameter, property, component schema, operation id, path segment); flags drawn from client x api-handler x donotedit x cors x basepath override x spec-handler-name; non-trivial = goag reported success (the package was then parsed, gofmt-checked and compiled)",
+        "rule": "specs = the fixture specs of /repo (own configuration + one drawn flag combination), random routing / security / parameter / JSON-component / response+client / map-fat specs, component-less specs with nested inline objects in bodies, name-stress specs (two awkward names in one scope: query, header, path parameter, property, component schema, operation id, path segment); flags drawn from client x api-handler x donotedit x cors x basepath override x spec-handler-name; non-trivial = goag reported success (the package was then parsed, gofmt-checked and compiled)",
         "samples": samples, "outcomes": outcomes, "flags": flags_seen, "templates": templates,
         "naming_tie": {"names_compared": names_n, "disagreements": names_bad},
         "explanation": "every package goag reports as written is parsed, checked for gofmt stability and compiled; errors are accepted outcomes (except for the repository's own fixtures); the naming theorems state that derived identifiers consist of letters and digits only",
